@@ -258,7 +258,8 @@ def run_glob(tier, funcs, index, enums, res):
         r = c12_glob.explore(n, funcs, index, enums, subj_len=3 if n <= 4 else 2)
         res["functions_executed"].update(r.pop("functions_executed"))
         for v in r.pop("violations"):
-            res["violations"].append({"key": v["what"].split("(")[0][:30] + ("panic" if "panic" in v["what"] else ""), "summary": v["what"], "replayer": "glob_pattern",
+            res["violations"].append({"key": ("glob | " + v["class"]) if v.get("class", "other") != "other" else v["what"].split("(")[0][:30] + ("panic" if "panic" in v["what"] else ""),
+                                      "summary": v["what"], "replayer": "glob_pattern",
                                       "pattern": v.get("pattern"), "subject": v.get("subject"), "what": v["what"]})
         for k, c in r.pop("unsupported").items():
             res["unsupported"][k] = res["unsupported"].get(k, 0) + c
